@@ -136,6 +136,40 @@ class _Renamed:
         return f
 
 
+def _literal_bursts():
+    """three literal 33-octet bursts (built once, at import, by the library's own assembly idiom): histories of length one
+    before the burst under test - whatever the tracker keeps about earlier bursts in state this contract knows nothing of
+    is then part of the pre-state"""
+    from okdmr.dmrlib.etsi.layer2.elements.data_packet_formats import DataPacketFormats
+    from okdmr.dmrlib.etsi.layer2.elements.sap_identifier import SAPIdentifier
+    from okdmr.dmrlib.etsi.layer2.elements.flcos import FLCOs
+    from okdmr.dmrlib.etsi.layer2.elements.feature_set_ids import FeatureSetIDs
+
+    def asm(pdu, dt):
+        b = Burst(burst_type=BurstTypes.DataAndControl)
+        b.has_emb = False
+        b.sync_or_embedded_signalling = SyncPatterns.BsSourcedData
+        b.slot_type = SlotType(colour_code=1, data_type=dt)
+        b.data = pdu
+        return b.as_bytes()
+
+    from bitarray import bitarray
+    from okdmr.dmrlib.etsi.layer3.elements.service_options import ServiceOptions
+
+    flc = FullLinkControl(protect_flag=0, flco=FLCOs.GroupVoiceChannelUser, fid=FeatureSetIDs.StandardizedFID, crc=bitarray("0" * 24), service_options=ServiceOptions(), group_address=9, source_address=2308155)
+    from okdmr.dmrlib.etsi.layer2.elements.full_message_flag import FullMessageFlag
+
+    hdr = DataHeader(dpf=DataPacketFormats.DataPacketUnconfirmed, sap_identifier=SAPIdentifier.ShortData, llid_destination=1, llid_source=2, blocks_to_follow=2, pad_octet_count=0, is_group=0,
+                     is_response_requested=0, full_message_flag=FullMessageFlag(1), fragment_sequence_number=0)
+    return {"voice_header": asm(flc, DataTypes.VoiceLCHeader), "data_header": asm(hdr, DataTypes.DataHeader), "stray_block": asm(Rate12Data(data=bytes(range(12))), DataTypes.Rate12Data)}
+
+
+try:
+    PRELUDE = _literal_bursts()
+except Exception:  # (a tree on which the builders fail: the preludes are skipped, the checks themselves will say why)
+    PRELUDE = {}
+
+
 def pre_values(vc, state, nblocks, lvb, cblocks):
     """an arbitrary tracker state within the invariant INV (proved preserved below):  type is the open transmission kind;
     Idle => no header;  Voice => the header is a full LC;  Data => no header yet (opened by a CSBK) or a data header that is
@@ -171,23 +205,31 @@ def pdu_class(kind):
 
 @contract("Timeslot.process_burst", "okdmr.dmrlib.transmission.timeslot:Timeslot.process_burst", ["C08"],
           stubs=["BitCrcRegister._process_bits", "Trellis34.points_to_tribits", "BPTC19696.encode", "BPTC19696.deinterleave_data_bits"])
-def one_burst(vc, state, nblocks, lvb, burst, timeslot, cblocks=False, diff=True):
+def one_burst(vc, state, nblocks, lvb, burst, timeslot, cblocks=False, diff=True, prelude=None):
     import secrets
 
     real_token, secrets.token_bytes, Tokens.n = secrets.token_bytes, Tokens.draw, 0
     try:
-        _one_burst(vc, state, nblocks, lvb, burst, timeslot, cblocks, diff)
+        _one_burst(vc, state, nblocks, lvb, burst, timeslot, cblocks, diff, prelude)
     finally:
         secrets.token_bytes = real_token
 
 
-def _one_burst(vc, state, nblocks, lvb, burst, timeslot, cblocks, diff):
+def _one_burst(vc, state, nblocks, lvb, burst, timeslot, cblocks, diff, prelude=None):
     pv = pre_values(vc, state, nblocks, lvb, cblocks)
     parse, pdu = make_burst(vc, burst)
     rec = Rec()
     term = Terminal(dmrid=2308155, observers=[Raising(), rec, Raising()])
     ts = term.timeslots[timeslot]
     tx = rec.tx = ts.transmission
+    if prelude is not None and prelude not in PRELUDE:
+        from pyvc.core import Undecided
+
+        raise Undecided("the literal prelude bursts could not be built on this tree")
+    if prelude in PRELUDE:
+        term.process_incoming_burst(Burst.from_bytes(PRELUDE[prelude]), timeslot)
+        del rec.ev[:]
+        ts.reset_rx_sequence = False
     install(ts, pv)
     other = term.timeslots[3 - timeslot]
     other_state = (other.transmission.type, other.rx_sequence, other.transmission.stream_no, other.transmission.header, list(other.transmission.blocks))
@@ -275,6 +317,10 @@ def _one_burst(vc, state, nblocks, lvb, burst, timeslot, cblocks, diff):
         term2 = Terminal(dmrid=2308155, observers=[quiet])
         ts2 = term2.timeslots[timeslot]
         quiet.tx = ts2.transmission
+        if prelude in PRELUDE:
+            term2.process_incoming_burst(Burst.from_bytes(PRELUDE[prelude]), timeslot)
+            del quiet.ev[:]
+            ts2.reset_rx_sequence = False
         install(ts2, pv)
         out2 = term2.process_incoming_burst(parse(), timeslot)
         qe = quiet.ev
@@ -302,7 +348,7 @@ def _shapes(tier):
                 lvbs = (["Unknown", "VoiceBurstA", "VoiceBurstC", "VoiceBurstF"] if tier == "quick" else [m.name for m in VoiceBursts]) if (s == "VoiceTransmission" and k in ("voice_sync", "voice_emb")) else ["Unknown"]
                 for lvb in lvbs:
                     n += 1
-                    yield dict(state=s, nblocks=nb, lvb=lvb, burst=k, timeslot=1 + n % 2, cblocks=cb)
+                    yield dict(state=s, nblocks=nb, lvb=lvb, burst=k, timeslot=1 + n % 2, cblocks=cb, prelude=(None, "voice_header", "data_header", "stray_block")[n % 4])
 
 
 one_burst.shapes = _shapes
